@@ -462,10 +462,11 @@ def _group(tlist, cls, match,
 
     tidx_offset = 0
     pidx, prev_ = None, None
-    # The opening and closing token of a parenthesis or of square brackets
-    # belong to that group, they are never operands of a joining pass.
+    # The opening and closing token of a bracketed or keyword-delimited
+    # group belong to that group, they are never operands of a joining pass.
     delimiters = ()
-    if isinstance(tlist, (sql.Parenthesis, sql.SquareBrackets)):
+    if isinstance(tlist, (sql.Parenthesis, sql.SquareBrackets, sql.Case,
+                          sql.If, sql.For, sql.Begin)):
         delimiters = (tlist.tokens[0], tlist.tokens[-1])
     for idx, token in enumerate(list(tlist)):
         tidx = idx - tidx_offset
